@@ -217,5 +217,11 @@ def run_case(case):
             V.append(tt.viol("C10:mixing:%s:%s" % (gname, t), "%s/%s with %s batched %s: sample %s gives %s, the same slice evaluated alone gives %s"
                              % (gname, t, "+".join(chosen) if len(chosen) <= 3 else "%d parameters" % len(chosen), list(sshape), ix, np.asarray(got).reshape(-1)[:3], np.asarray(exp).reshape(-1)[:3]), **detail))
             break
+    if t.endswith("gmrfcov"):
+        # mechanism: GMRFCovariate._call is written for an unbatched field (field.t() @ Q @ field); with a sample dimension it raises,
+        # except when the number of samples equals the field length, where the matrix products go through and numbers come back
+        for v in V:
+            if v["sig"].startswith(("C10:shape:", "C10:mixing:")):
+                v["sig"] = "C10:GMRFCovariate:no-sample-dimension-support:returns-numbers-when-S-equals-the-field-length"
     fp = "%s|%s|%s|%s" % (gname, t, ",".join(sorted(chosen)) if len(chosen) < 6 else case["mode"], sshape) if int(np.prod(sshape)) >= 2 else None
     return {"violations": V, "counters": C, "fingerprint": fp, "sample": {"graph": gname, "target": t, "batched": chosen, "shape": list(sshape)} if len(chosen) <= 4 else None}
